@@ -121,6 +121,8 @@ partial def showCh : List Ch → String
 /-- `hydrate run (L vd…) <store> <writes> <ssr>`: after hydration the document shows what a client
 render shows (the SSR string itself is checked by C08/C12); the model ignores the last field -/
 def handleHydrate (line : String) : String :=
+  -- lists under hydration are not modelled: the real code cannot hydrate them at all (known finding D17)
+  if (line.splitOn "(keyed ").length > 1 then "unmodelled: Keyed under hydration (D17)" else
   let parts := (line.splitOn " ").dropLast
   match parts.getLast?, parts.dropLast.getLast? with
   | some writes, some store =>
